@@ -11,6 +11,7 @@ import (
 	"net/http/httptest"
 	"strings"
 	"sync"
+	"sync/atomic"
 	"time"
 )
 
@@ -121,17 +122,28 @@ func rrHTTPS(owner string, ttl uint32, prio int, target string, p svcParams) wRR
 }
 
 // wResponse builds a response message for the query (id, qname, qtype).
+// An RCODE above 15 is an RFC 6891 extended RCODE: its upper eight bits travel in the TTL field of an OPT record, which
+// is the only additional record, or (every other time) the second one.
+var optToggle atomic.Int64
+
 func wResponse(id int, qname string, qtype int, rcode int, answers []wRR) []byte {
 	b := u16(id)
 	b = append(b, u16(0x8180|rcode&0xf)...) // QR RD RA
 	b = append(b, u16(1)...)
 	b = append(b, u16(len(answers))...)
 	b = append(b, u16(0)...)
-	b = append(b, u16(0)...)
+	var additional []wRR
+	if rcode > 15 {
+		if optToggle.Add(1)%2 == 0 {
+			additional = append(additional, rrA("glue.example", 60, "192.0.2.200"))
+		}
+		additional = append(additional, wRR{Owner: "", Type: tOPT, TTL: uint32(rcode>>4) << 24, Data: nil})
+	}
+	b = append(b, u16(len(additional))...)
 	b = append(b, wName(qname)...)
 	b = append(b, u16(qtype)...)
 	b = append(b, u16(1)...)
-	for _, a := range answers {
+	for _, a := range append(answers, additional...) {
 		b = append(b, a.bytes()...)
 	}
 	return b
